@@ -8,12 +8,18 @@ mkdir -p evidence .work
 # syntax/semantic check of every specification module
 fail=0
 JTMP=$(mktemp -d)   # SANY leaves SANY<n> directories in java.io.tmpdir
-for f in spec/*/*.tla; do
-  d=$(dirname "$f"); m=$(basename "$f")
-  if ! (cd "$d" && java -Djava.io.tmpdir="$JTMP" -cp /opt/veriftools/tla/tla2tools.jar:/opt/veriftools/tla/CommunityModules-deps.jar tla2sany.SANY "$m" >/tmp/.sany.$$ 2>&1); then
-    echo "SANY failed: $f"; tail -5 /tmp/.sany.$$; fail=1
-  fi
-  rm -f /tmp/.sany.$$
+for d in spec/*/; do
+  T=$(mktemp -d)     # a module is checked next to the shared modules of spec/common, as the driver runs it
+  cp spec/common/*.tla "$T"/ 2>/dev/null || true
+  cp "$d"*.tla "$T"/ 2>/dev/null || true
+  for f in "$d"*.tla; do
+    [ -f "$f" ] || continue
+    m=$(basename "$f")
+    if ! (cd "$T" && java -Djava.io.tmpdir="$JTMP" -cp /opt/veriftools/tla/tla2tools.jar:/opt/veriftools/tla/CommunityModules-deps.jar tla2sany.SANY "$m" >"$JTMP/sany.out" 2>&1); then
+      echo "SANY failed: $f"; tail -5 "$JTMP/sany.out"; fail=1
+    fi
+  done
+  rm -rf "$T"
 done
 rm -rf "$JTMP"
 [ $fail = 0 ] || echo "WARNING: some specification modules do not parse (work in progress); their checks will report exit 2"
